@@ -18,7 +18,9 @@ TNext == i < Len(Runs) /\ i' = i + 1 /\ UNCHANGED vars
 
 ToSet(s) == {s[k] : k \in DOMAIN s}
 \* in-process runs of pipeline::compile are judged stage by stage; runs of the command-line entry points (run, check, build,
-\* link) by what a user sees: exit status 0, or a non-zero status together with a message
+\* link) by what a user sees: exit status 0, or a non-zero status together with a message; calls of the web playground's
+\* functions (entry "web": execute, compile_to_core / mono / anf / go, get_cst / ast / tast of crates/wasm-app) by the
+\* string they return: a result, or a text that starts with "error"
 Allowed(r) ==
   IF r.entry = "compile" THEN Outcomes(r.verdict, ToSet(r.err_stages))
   ELSE \/ r.verdict = "ok"
